@@ -62,7 +62,7 @@ class InputTerm:
     def kid(self, i):
         k = self._kids.get(i)
         if k is None:
-            k = InputTerm("%s.%d" % (self.uid, i), self.depth + 1, self.space, self, i)
+            k = self.space.node_class("%s.%d" % (self.uid, i), self.depth + 1, self.space, self, i)
             self._kids[i] = k
         return k
 
@@ -145,8 +145,33 @@ class InputTerm:
         return a
 
 
+class MappedTerm(InputTerm):
+    """A second view of an input node (same solver variables, same per-path constructor decisions)
+    whose *variable indices* are mapped: inside a region of the template, an index that points
+    outside the region's binders is shifted, or two adjacent group indices are swapped.  Used to build
+    rewritten programs (a definition inserted into, or two definitions exchanged in, an inner
+    group).  Only meaningful on hole-free templates: a hole's shift is not an index."""
+
+    def __init__(self, uid, depth, space, parent=None, slot=None):
+        InputTerm.__init__(self, uid, depth, space, parent, slot)
+        m = space.index_map(self)
+        if m is not None:
+            self.idx = m(self.idx)
+
+
+def binder_contribution(p, slot):
+    """Number of binders the parent p puts between itself and its child in `slot` (a formula over
+    p's constructor tag)."""
+    lam = 1 if slot == 1 else 0
+    e = z3.IntVal(0)
+    for c in ("Let4", "Let3", "Let2", "Let1"):
+        e = z3.If(p.tag == CODE[c], let_n(c), e)
+    return z3.If(z3.Or(p.tag == CODE["Lambda"], p.tag == CODE["Pi"]), lam, e)
+
+
 class InputSpace:
     """Describes a family of symbolic terms: alphabets per position, depth limit, naming."""
+    node_class = InputTerm
 
     def __init__(self, prefix, max_depth, alphabet, leaf_alphabet=None, source_ranges=True, shared_cells=None, scope=None):
         self.prefix = prefix
@@ -164,7 +189,7 @@ class InputSpace:
         uid = uid or self.prefix
         n = self.nodes.get(uid)
         if n is None:
-            n = InputTerm(uid, 1, self)
+            n = self.node_class(uid, 1, self)
             self.nodes[uid] = n
         return n
 
